@@ -34,6 +34,8 @@ def _emptiness_guard(term, pname):
     p = ("n", pname)
     lens = [("call", ("n", "len"), (p,), ()), ("call", ("a", ("n", "np"), "size"), (p,), ()), ("a", p, "size"),
             ("call", ("n", "len"), (("copy", "list", p),), ())]
+    if term in lens or term == p:
+        return True                                   # truthiness of the length / of the sequence itself
     if term[0] == "cmp":
         op, l, r = term[1], term[2], term[3]
         zero, one = ("c", "0"), ("c", "1")
@@ -121,10 +123,43 @@ def run(prog, ctx):
     env = tm.env
     key_ok_term = ("copy", "tuple", ("n", pname))
     n_store = 0
+    def judge_zip(a, b):
+        """zip(<the points of this call>, <the values evaluated for them>)"""
+        okk = isinstance(a, ast.Name) and a.id == pname
+        okv = False
+        if isinstance(b, ast.Name):
+            okv = True
+            for bd in env.bindings.get(b.id, []):
+                v = bd.value
+                if bd.kind != "assign" or v is None:
+                    okv = False
+                    continue
+                has_eval = any(isinstance(x, ast.Call) and isinstance(x.func, ast.Attribute)
+                               and x.func.attr == "eval_vectorized"
+                               and any(isinstance(y, ast.Name) and y.id == pname for a2 in x.args for y in ast.walk(a2))
+                               for x in ast.walk(v))
+                selfref = any(isinstance(y, ast.Name) and y.id == b.id for y in ast.walk(v))
+                if not (has_eval or selfref):
+                    okv = False
+        return okk and okv
     for s in R.self_stores(call, "f_dict"):
         if s.kind == "elem":
-            n_store += 1
             sub = s.stmt.targets[0]
+            # the batch update written as a loop:  for point, value in zip(points, values): self.f_dict[point] = value
+            loops_ = [l for l in R.enclosing_loops(s.stmt) if isinstance(l, ast.For)]
+            if loops_ and isinstance(loops_[-1].iter, ast.Call) and isinstance(loops_[-1].iter.func, ast.Name) and loops_[-1].iter.func.id == "zip" \
+                    and len(loops_[-1].iter.args) == 2 and isinstance(loops_[-1].target, ast.Tuple) and len(loops_[-1].target.elts) == 2 \
+                    and all(isinstance(e, ast.Name) for e in loops_[-1].target.elts):
+                kv, vv = loops_[-1].target.elts
+                n_store += 1
+                ok = isinstance(sub.slice, ast.Name) and sub.slice.id == kv.id and isinstance(s.value, ast.Name) and s.value.id == vv.id \
+                    and judge_zip(*loops_[-1].iter.args)
+                ctx.check(ok, "C12.D4", R.key_of(call, "batch-update"), call.loc(s.stmt),
+                          "the batch update stores, for each point of this call, the value evaluated for it",
+                          "batch cache update `%s` (in `for %s in %s`) does not pair the points of this call with the values evaluated for them"
+                          % (src(s.stmt), src(loops_[-1].target), src(loops_[-1].iter)))
+                continue
+            n_store += 1
             k = tm.term(sub.slice)
             good_key = k == key_ok_term
             # value: every non-None definition of the stored name is a lookup/evaluation for the same key
